@@ -637,6 +637,10 @@ class Nodes:
         if isinstance(value, NodeCoords):
             return Nodes.typed_value(value.node)
 
+        if isinstance(value, ScalarBoolean):
+            # An anchored Boolean; its text would be "1" or "0"
+            return bool(value)
+
         cased_value = value
         lower_value = str(value).lower()
 
